@@ -3,7 +3,7 @@ import XmlRsModel.XmlDoc
     tags, quote characters, empty-element tag versus start/end pair).  `str` writes a concrete document, `erase`
     forgets the choices; `canon` is the layout the compact printer uses (`str (canon i) = printItem i`).
     Used to state completeness of the parser: EVERY rendering of an abstract document parses to that document
-    (properties C01 and C04).  Profile covered so far: no DOCTYPE. -/
+    (properties C01 and C04).  Profile covered so far: optional XML declaration, no DOCTYPE. -/
 namespace XmlRs
 open Gen.Xml
 
@@ -92,7 +92,28 @@ def miscText : List CMisc → Str
   | [] => []
   | m :: r => m.str ++ miscText r
 
-def CDoc.str (d : CDoc) : Str := miscText d.before ++ (d.root.str ++ miscText d.after)
+def kwVersion : Str := ['v', 'e', 'r', 's', 'i', 'o', 'n']
+def kwEncoding : Str := ['e', 'n', 'c', 'o', 'd', 'i', 'n', 'g']
+def kwStandalone : Str := ['s', 't', 'a', 'n', 'd', 'a', 'l', 'o', 'n', 'e']
+def yesNo (b : Bool) : Str := if b then ['y', 'e', 's'] else ['n', 'o']
+
+def encText : Option (Str × Str × Str × Char × Str) → Str
+  | none => []
+  | some (w, e1, e2, q, name) => w ++ (kwEncoding ++ (e1 ++ ('=' :: (e2 ++ (q :: (name ++ [q]))))))
+
+def sdText : Option (Str × Str × Str × Char × Bool) → Str
+  | none => []
+  | some (w, e1, e2, q, b) => w ++ (kwStandalone ++ (e1 ++ ('=' :: (e2 ++ (q :: (yesNo b ++ [q]))))))
+
+def CDecl.str (x : CDecl) : Str :=
+  ['<', '?', 'x', 'm', 'l'] ++ (x.wsV ++ (kwVersion ++ (x.eqV1 ++ ('=' :: (x.eqV2 ++ (x.qV :: ('1' :: '.' :: (x.minor ++ (x.qV ::
+    (encText x.enc ++ (sdText x.sd ++ (x.wsEnd ++ ['?', '>']))))))))))))
+
+def declText : Option CDecl → Str
+  | none => []
+  | some x => x.str
+
+def CDoc.str (d : CDoc) : Str := declText d.decl ++ (miscText d.before ++ (d.root.str ++ miscText d.after))
 
 /-! ### forgetting the layout -/
 def CAttr.erase (a : CAttr) : Attr := ⟨a.name, a.vals⟩
@@ -119,7 +140,9 @@ def CMisc.erase : CMisc → Option TopItem
   | .ws _ => none
 
 def CDoc.erase (d : CDoc) : IDoc :=
-  ⟨none, none, none, d.before.filterMap CMisc.erase ++ [.elem d.root.erase] ++ d.after.filterMap CMisc.erase⟩
+  ⟨d.decl.map (fun x => '1' :: '.' :: x.minor), d.decl.bind (fun x => x.enc.map (fun e => e.2.2.2.2)),
+   d.decl.bind (fun x => x.sd.map (fun e => e.2.2.2.2)),
+   d.before.filterMap CMisc.erase ++ [.elem d.root.erase] ++ d.after.filterMap CMisc.erase⟩
 
 /-! ### which concrete documents are renderings (the lexical side conditions of the productions) -/
 abbrev ncRestC : Char → Bool := P.except P.isNameChar [':']
@@ -202,8 +225,25 @@ def adjWs : List CMisc → Bool
   | [] => false
   | m :: r => (isWsMisc m && (match r with | j :: _ => isWsMisc j | [] => false)) || adjWs r
 
+def isQuote (q : Char) : Bool := q == '"' || q == '\''
+
+/-- EncName ::= [A-Za-z] ([A-Za-z0-9._] | '-')* -/
+def okEncName : Str → Bool
+  | [] => false
+  | c :: r => P.isAlpha c && r.all P.isEncName
+
+def okDecl (x : CDecl) : Bool :=
+  !x.wsV.isEmpty && okWs x.wsV && okWs x.eqV1 && okWs x.eqV2 && isQuote x.qV && !x.minor.isEmpty && x.minor.all P.isDigit &&
+  (match x.enc with
+   | none => true
+   | some (w, e1, e2, q, name) => !w.isEmpty && okWs w && okWs e1 && okWs e2 && isQuote q && okEncName name) &&
+  (match x.sd with
+   | none => true
+   | some (w, e1, e2, q, _) => !w.isEmpty && okWs w && okWs e1 && okWs e2 && isQuote q) &&
+  okWs x.wsEnd
+
 def CDoc.ok (d : CDoc) : Bool :=
-  d.decl.isNone && d.before.all okMisc && !adjWs d.before && isElemItem d.root && okItem d.root &&
+  (match d.decl with | none => true | some x => okDecl x) && d.before.all okMisc && !adjWs d.before && isElemItem d.root && okItem d.root &&
   d.after.all okMisc && !adjWs d.after
 
 /-! ### nesting depth of elements -/
@@ -250,8 +290,8 @@ def canonMiscs : List TopItem → Option (List CMisc)
   | .pi t d :: r => (canonMiscs r).map (CMisc.pi t (canonPIBody d) :: ·)
   | _ :: _ => none
 
-/-- the concrete document the printer writes for `d`, for the profile of the completeness theorem: no XML declaration,
-    no DOCTYPE, comments and PIs around exactly one element -/
+/-- the concrete document the printer writes for `d`, for the profile of the completeness theorem: no DOCTYPE,
+    comments and PIs around exactly one element -/
 def canonTop : List TopItem → Option (List CMisc × CItem × List CMisc)
   | [] => none
   | .elem e :: r => (canonMiscs r).map fun after => ([], canonItem e, after)
@@ -259,9 +299,20 @@ def canonTop : List TopItem → Option (List CMisc × CItem × List CMisc)
   | .pi t d :: r => (canonTop r).map fun (b, e, a) => (CMisc.pi t (canonPIBody d) :: b, e, a)
   | .doctype _ :: _ => none
 
+/-- the XML declaration as the printer writes it: one space, no space around `=`, double quotes; `none` = the document
+    cannot be written faithfully (a version that is not `1.n`, pseudo-attributes without a version, an empty encoding) -/
+def canonDecl (d : IDoc) : Option (Option CDecl) :=
+  match d.version with
+  | none => if d.encoding.isSome || d.standalone.isSome then none else some none
+  | some ('1' :: '.' :: minor) =>
+      some (some ⟨[' '], [], [], '"', minor, d.encoding.map (fun e => ([' '], [], [], '"', e)),
+                  d.standalone.map (fun b => ([' '], [], [], '"', b)), []⟩)
+  | some _ => none
+
 def canonDoc (d : IDoc) : Option CDoc :=
-  if d.version.isSome || d.encoding.isSome || d.standalone.isSome then none else
-  (canonTop d.kids).map fun (b, e, a) => ⟨none, b, e, a⟩
+  match canonDecl d with
+  | none => none
+  | some decl => (canonTop d.kids).map fun (b, e, a) => ⟨decl, b, e, a⟩
 
 /-- the data of a PI does not start with white space (the parser gives that white space to the separator) -/
 def piFaithful : Option Str → Bool
